@@ -118,6 +118,7 @@ func routingScenario(s *Sim, params map[string]string) {
 	client := &kafka.Client{Addr: kafka.TCP(boot...), Transport: tr, Timeout: 5 * time.Second}
 
 	restarts := false  // some broker has been restarted in this run
+	var downAt []time.Duration // instants at which a broker went down
 	elections := false // some partition has been without a leader in this run
 	// metadata snapshots delivered to the client (from the journal, at the end)
 	var moves []time.Duration
@@ -167,6 +168,7 @@ func routingScenario(s *Sim, params map[string]string) {
 					break
 				}
 				restarts = true
+				downAt = append(downAt, s.Now())
 				cl.SetBrokerUp(b, false)
 				down := time.Duration(t.Range("fault", 20, 600)) * time.Millisecond
 				s.After(down, "broker-back", func() {
@@ -317,12 +319,12 @@ func routingScenario(s *Sim, params map[string]string) {
 		return closed
 	})
 	s.AtEnd(func() {
-		routingOracle(s, cl, ttl, n.MaxLatency, moves)
+		routingOracle(s, cl, ttl, n.MaxLatency, moves, downAt)
 		n.Shutdown()
 	})
 }
 
-func routingOracle(s *Sim, cl *Cluster, ttl, maxLat time.Duration, moves []time.Duration) {
+func routingOracle(s *Sim, cl *Cluster, ttl, maxLat time.Duration, moves, downAt []time.Duration) {
 	// snapshots, in delivery order
 	var snaps []snapshot
 	coord := map[string][]struct {
@@ -471,7 +473,18 @@ func routingOracle(s *Sim, cl *Cluster, ttl, maxLat time.Duration, moves []time.
 			// (a client that has never received any metadata has nothing that
 			// designates a broker: it falls back to its bootstrap address)
 			hadMetadata := len(snaps) > 0 && snaps[0].at <= r.At
-			if p := leaderOf(); p != nil && p.Leader != b.ID && hadMetadata && r.At-p.LeaderSince > ttl+12*maxLat+100*time.Millisecond && cl.F.ErrorCode == 0 {
+			// (a broker going down in that period may have taken the
+			// connection the metadata is refreshed over with it: the refresh is
+			// then late by a dial, a back-off and possibly a dial time-out)
+			disturbed := false
+			if p := leaderOf(); p != nil {
+				for _, d := range downAt {
+					if d >= p.LeaderSince-ttl && d <= r.At {
+						disturbed = true
+					}
+				}
+			}
+			if p := leaderOf(); p != nil && p.Leader != b.ID && hadMetadata && !disturbed && r.At-p.LeaderSince > ttl+12*maxLat+100*time.Millisecond && cl.F.ErrorCode == 0 {
 				s.Fail("C12", "R3-stale-leader", "%s request #%d arrived at broker %d at %v, but broker %d has been %s since %v: more than MetadataTTL (%v) plus a round trip ago", r.API.Name, r.Idx, b.ID, r.At, p.Leader, what, p.LeaderSince, ttl)
 			}
 		}
